@@ -345,9 +345,13 @@ func (z *ZodAny[T, R]) CloneFrom(source any) {
 // extractAnyValue extracts the base type T from the constraint type R.
 func extractAnyValue[T any, R any](value R) T {
 	if v, ok := any(value).(*any); ok && v != nil {
-		return any(*v).(T) //nolint:unconvert // Required for generic type constraint conversion.
+		r, _ := any(*v).(T) //nolint:unconvert // Required for generic type constraint conversion.
+		return r
 	}
-	return any(value).(T)
+	// A nil value (a nil input the schema accepts) has no dynamic type: hand on the zero T
+	// instead of panicking in the assertion.
+	r, _ := any(value).(T)
+	return r
 }
 
 // newZodAnyFromDef constructs a new ZodAny instance from the given definition.
